@@ -348,7 +348,7 @@ def innermost_loop_header(body, bb):
 def check_inspection(crate, insp, local_inspectors=()):
     """returns (ok, detail, npaths).  detail names an unguarded effect block."""
     body = insp.body
-    tag = deep_peel(("field", 0, insp.base))
+    tag = deep_peel(mir.fld(0, insp.base))
     call_atom = strip_sites(body.call_expr(insp.bb))
     # find switches branching on this call's result
     pos_edges = []
